@@ -47,3 +47,7 @@ Example dl_nonvacuous :
   exists d rs, dl_run Z Z.eqb [LPushBack Z 1%Z; LPushFront Z 2%Z; LPushBack Z 3%Z; LInsertBefore Z 1%Z 9%Z; LEraseValue Z 2%Z; LPopBack Z; LFind Z 1%Z] (dl_empty Z) = Ok (d, rs) /\
     dl_contents Z d = Ok [9%Z; 1%Z].
 Proof. split; [apply (dl_empty_wf Z 0%Z)|]. eexists; eexists. split; vm_compute; reflexivity. Qed.
+
+(* the witness of the former commit defect is now stopped (corpus/C12/sb_commit_over.txt) *)
+Example sb_commit_over_stopped : sb_step (BCommitOver 0 0) sb_empty = Trap TrapNoSpace.
+Proof. vm_compute. reflexivity. Qed.
